@@ -439,3 +439,63 @@ class SplitMix:
 
     def choice(self, xs):
         return xs[self.below(len(xs))]
+
+
+# ------------------------------------------------------------------------------------------------
+# drift trigger for hand-modelled code (DESIGN 2.5)
+# ------------------------------------------------------------------------------------------------
+
+def _token_fingerprint(path):
+    """sha256 over the token texts of the non-test part of a Rust file (comments, blank lines and formatting do not count)"""
+    sys.path.insert(0, os.path.join(VERIF, "tools"))
+    import rustlex
+    src = open(path).read()
+    k = src.find("#[cfg(test)]")
+    if k >= 0:
+        src = src[:k]
+    toks = rustlex.tokenize(src)
+    h = hashlib.sha256()
+    for t in toks:
+        h.update(t.text.encode())
+        h.update(b"\0")
+    return h.hexdigest(), len(toks)
+
+
+def source_drift(name, rel_paths):
+    """Compare the token fingerprints of hand-modelled source files with the baseline recorded when the model was written
+    (corpus/fingerprints.json).  Returns the list of files whose tokens differ (a comment / formatting change is not a
+    difference).  A difference means: the hand model may no longer describe the code - the caller reports it as broken and
+    widens its search; it is not by itself a violation."""
+    base_path = os.path.join(VERIF, "corpus", "fingerprints.json")
+    try:
+        base = json.load(open(base_path))
+    except (OSError, ValueError):
+        base = {}
+    changed = []
+    for rel in rel_paths:
+        p = os.path.join(REPO, rel)
+        try:
+            fp, n = _token_fingerprint(p)
+        except OSError:
+            changed.append({"file": rel, "reason": "missing"})
+            continue
+        b = base.get(name, {}).get(rel)
+        if b is None:
+            changed.append({"file": rel, "reason": "no baseline recorded"})
+        elif b["sha256"] != fp:
+            changed.append({"file": rel, "reason": "tokens differ from the baseline (%d tokens then, %d now)" % (b["tokens"], n)})
+    return changed
+
+
+def record_fingerprints(name, rel_paths):
+    base_path = os.path.join(VERIF, "corpus", "fingerprints.json")
+    try:
+        base = json.load(open(base_path))
+    except (OSError, ValueError):
+        base = {}
+    base[name] = {}
+    for rel in rel_paths:
+        fp, n = _token_fingerprint(os.path.join(REPO, rel))
+        base[name][rel] = {"sha256": fp, "tokens": n}
+    with open(base_path, "w") as f:
+        json.dump(base, f, indent=1, sort_keys=True)
